@@ -53,8 +53,7 @@ Qed.
 
 (* non-vacuity: an 8-key example with the empty key, shared suffixes and non-monotone values,
    under geometries (10000,2), (1,1), (0,0), evaluated by the kernel *)
-Example C01_nonvacuous : True.
-Proof. exact I. Qed.
+Definition C01_nonvacuous := C01_builder_nonvacuous.   (* stated and proved in C01_builder.v *)
 
 Check C01_map_round_trip.
 Check C01_set_round_trip.
